@@ -771,7 +771,7 @@ class Interp(object):
             if -len(base) <= idx < len(base):
                 return base[idx]
             raise Raise('IndexError', node, self.where(node, frame))
-        if isinstance(base, dict) and not isinstance(idx, (Top, Sym, Obj, list, dict)):
+        if isinstance(base, dict) and not isinstance(idx, (Top, Sym, Obj, list, dict)) and not (isinstance(idx, tuple) and _has_abstract(idx)):
             if idx in base:
                 return base[idx]
             raise Raise('KeyError', node, self.where(node, frame))
@@ -1005,7 +1005,15 @@ class Interp(object):
                 k = args[0]
                 if not isinstance(k, (Top, Sym, Obj, list, dict)) and k in base:
                     return base.pop(k)
+                if not isinstance(k, (Top, Sym, Obj, list, dict)) and len(args) > 1:
+                    return args[1]
                 return Top('item')
+            if name == 'popitem':
+                if not base:
+                    raise Raise('KeyError', node, self.where(node, frame))
+                return base.popitem()
+            if name == 'setdefault' and not isinstance(args[0], (Top, Sym, Obj, list, dict)):
+                return base.setdefault(args[0], args[1] if len(args) > 1 else None)
         if isinstance(base, (str, bytes)) and name in ('encode', 'decode') and not _has_abstract(list(args)) \
                 and set(kwargs) <= {'encoding', 'errors'} and not _has_abstract(kwargs):
             try:
@@ -1574,7 +1582,7 @@ class Interp(object):
                 idx = self.ev(t.slice, frame)
             if self.on_store_subscript(base, idx, v, node, frame):
                 return
-            if isinstance(base, dict) and not isinstance(idx, (Top, Sym, Obj, list, dict, tuple)):
+            if isinstance(base, dict) and not isinstance(idx, (Top, Sym, Obj, list, dict)) and not (isinstance(idx, tuple) and _has_abstract(idx)):
                 base[idx] = v
             elif isinstance(base, list) and isinstance(idx, int) and -len(base) <= idx < len(base):
                 base[idx] = v
